@@ -1836,6 +1836,24 @@ static int64_t eval(Node *node) {
   return eval2(node, NULL);
 }
 
+// Convert val to the integer type ty.
+static int64_t fit_int(Type *ty, int64_t val) {
+  if (ty->kind == TY_BOOL)
+    return val != 0;
+
+  switch (ty->size) {
+  case 1:
+    return ty->is_unsigned ? (int64_t)(uint8_t)val : (int64_t)(int8_t)val;
+  case 2:
+    return ty->is_unsigned ? (int64_t)(uint16_t)val : (int64_t)(int16_t)val;
+  case 4:
+    return ty->is_unsigned ? (int64_t)(uint32_t)val : (int64_t)(int32_t)val;
+  }
+  return val;
+}
+
+static int64_t eval3(Node *node, char ***label);
+
 // Evaluate a given node as a constant expression.
 //
 // A constant expression is either just a number or ptr+n where ptr
@@ -1847,6 +1865,16 @@ static int64_t eval2(Node *node, char ***label) {
 
   if (is_flonum(node->ty))
     return eval_double(node);
+
+  // The arithmetic below is done in int64_t; the result of an
+  // expression of a narrower integer type wraps to that type.
+  int64_t val = eval3(node, label);
+  if (is_integer(node->ty))
+    return fit_int(node->ty, val);
+  return val;
+}
+
+static int64_t eval3(Node *node, char ***label) {
 
   switch (node->kind) {
   case ND_ADD:
@@ -1903,13 +1931,8 @@ static int64_t eval2(Node *node, char ***label) {
     return eval(node->lhs) || eval(node->rhs);
   case ND_CAST: {
     int64_t val = eval2(node->lhs, label);
-    if (is_integer(node->ty)) {
-      switch (node->ty->size) {
-      case 1: return node->ty->is_unsigned ? (uint8_t)val : (int8_t)val;
-      case 2: return node->ty->is_unsigned ? (uint16_t)val : (int16_t)val;
-      case 4: return node->ty->is_unsigned ? (uint32_t)val : (int32_t)val;
-      }
-    }
+    if (is_integer(node->ty))
+      return fit_int(node->ty, val);
     return val;
   }
   case ND_ADDR:
